@@ -6,5 +6,6 @@ package leader
 func (e *kvElection) verifYield(site string) {}
 
 // verifHeld and verifPreLock are never called in the default build (see verif_hooks.go).
-func verifHeld(delta int)      {}
-func verifPreLock(site string) {}
+func verifHeld(delta int)            {}
+func verifPreLock(site string)       {}
+func verifLockObj(kind byte, mu any) {}
